@@ -468,14 +468,27 @@ func DefaultExternals() map[string]externalFn {
 
 		// --- sync.Map (deterministic model)
 		"(*sync.Map).Load": func(fr *frame, args []value) value {
-			v, ok := fr.i.syncMap(args[0]).lookup(args[1])
+			m := fr.i.syncMap(args[0])
+			key := args[1]
+			if containsSym(key) {
+				key = fr.concretizeKey(m, key, anyType, false)
+				if key == nil {
+					return tuple{iface{}, false}
+				}
+			}
+			v, ok := m.lookup(key)
 			if !ok {
 				return tuple{iface{}, false}
 			}
 			return tuple{v, true}
 		},
 		"(*sync.Map).Store": func(fr *frame, args []value) value {
-			fr.i.syncMap(args[0]).insert(args[1], args[2])
+			m := fr.i.syncMap(args[0])
+			key := args[1]
+			if containsSym(key) {
+				key = fr.concretizeKey(m, key, anyType, true)
+			}
+			m.insert(key, args[2])
 			return nil
 		},
 		"(*sync.Map).LoadOrStore": func(fr *frame, args []value) value {
@@ -495,7 +508,15 @@ func DefaultExternals() map[string]externalFn {
 			return tuple{iface{}, false}
 		},
 		"(*sync.Map).Delete": func(fr *frame, args []value) value {
-			fr.i.syncMap(args[0]).delete(args[1])
+			m := fr.i.syncMap(args[0])
+			key := args[1]
+			if containsSym(key) {
+				key = fr.concretizeKey(m, key, anyType, false)
+				if key == nil {
+					return nil
+				}
+			}
+			m.delete(key)
 			return nil
 		},
 		"(*sync.Map).Range": func(fr *frame, args []value) value {
@@ -1113,3 +1134,5 @@ func init() {
 }
 
 var binaryExternals map[string]externalFn
+
+var anyType = types.NewInterfaceType(nil, nil)
